@@ -66,11 +66,15 @@ func (switcher DomainSwitcher) ComplexToReal(eval *Evaluator, ctIn, opOut *rlwe.
 		return fmt.Errorf("cannot ComplexToReal: ctIn ring degree must be twice opOut ring degree")
 	}
 
-	opOut.Resize(1, level)
-
 	if switcher.stdToci == nil {
 		return fmt.Errorf("cannot ComplexToReal: no realToComplexEvk provided to this DomainSwitcher")
 	}
+
+	// The key switch is defined up to the level of its key: above it nothing is
+	// computed and the rows of the result would be whatever the buffers hold.
+	level = utils.Min(level, switcher.stdToci.LevelQ())
+
+	opOut.Resize(1, level)
 
 	ctTmp := &rlwe.Ciphertext{}
 	ctTmp.Value = []ring.Poly{evalRLWE.BuffQP[1].Q, evalRLWE.BuffQP[2].Q}
@@ -107,11 +111,14 @@ func (switcher DomainSwitcher) RealToComplex(eval *Evaluator, ctIn, opOut *rlwe.
 		return fmt.Errorf("cannot RealToComplex: opOut ring degree must be twice ctIn ring degree")
 	}
 
-	opOut.Resize(1, level)
-
 	if switcher.ciToStd == nil {
 		return fmt.Errorf("cannot RealToComplex: no realToComplexEvk provided to this DomainSwitcher")
 	}
+
+	// See ComplexToReal: the result is defined up to the level of the key.
+	level = utils.Min(level, switcher.ciToStd.LevelQ())
+
+	opOut.Resize(1, level)
 
 	switcher.stdRingQ.AtLevel(level).UnfoldConjugateInvariantToStandard(ctIn.Value[0], opOut.Value[0])
 	switcher.stdRingQ.AtLevel(level).UnfoldConjugateInvariantToStandard(ctIn.Value[1], opOut.Value[1])
